@@ -264,3 +264,17 @@ func (s *Sim) ByzCertForCommittee(votes []*bft.Message, root uint64) *lib.Quorum
 	c.Block, c.Results = bytes.Clone(info.Block), proto.Clone(info.Results).(*lib.CertificateResult)
 	return c
 }
+
+// CertWithProposal returns a copy of a travelled certificate with the block and results it certifies attached
+// (certificates inside PRECOMMIT/COMMIT messages travel without them).
+func (s *Sim) CertWithProposal(c *lib.QuorumCertificate) *lib.QuorumCertificate {
+	if c == nil {
+		return nil
+	}
+	q := proto.Clone(c).(*lib.QuorumCertificate)
+	if q.Block == nil || q.Results == nil {
+		info := s.BlockOf[s.BlockID(q.BlockHash, q.ResultsHash)-1]
+		q.Block, q.Results = bytes.Clone(info.Block), proto.Clone(info.Results).(*lib.CertificateResult)
+	}
+	return q
+}
